@@ -162,13 +162,14 @@ func (m *C12) Block(w *world.World, e *world.BlockEvent) {
 				a, b := pre, post
 				var keptA []uint64
 				for _, sid := range a.Shards {
-					if sh, ok := e.PreEnd.Shards[sid]; ok && sh.Status == ShardCompleted {
+					// stored shards and hand-overs in progress (migrating) are not "unfinished parts" of the order
+					if sh, ok := e.PreEnd.Shards[sid]; ok && (sh.Status == ShardCompleted || sh.Status == ShardMigrating) {
 						keptA = append(keptA, sid)
 					}
 				}
 				var keptB []uint64
 				for _, sid := range b.Shards {
-					if sh, ok := e.Post.Shards[sid]; ok && sh.Status == ShardCompleted {
+					if sh, ok := e.Post.Shards[sid]; ok && (sh.Status == ShardCompleted || sh.Status == ShardMigrating) {
 						keptB = append(keptB, sid)
 					}
 				}
